@@ -255,6 +255,10 @@ pub fn get_navigation_node_from_braille_position(mathml: Element, position: usiz
         highlight_end: usize,
     }
 
+    if mathml.children().is_empty() {
+        bail!("MathML has not been set -- there is no braille to search");
+    }
+
     // save the current highlight state, set the state to be the end points so we can find the braille, then restore the state
     // FIX: this can fail if there is 8-dot braille
     use crate::interface::{get_preference, set_preference};
